@@ -218,6 +218,79 @@ fn big_block_interrupted(seed: u64, report: &mut Report) {
     }
 }
 
+
+/// OUTSIDE the property, recorded as an observation (DESIGN §11.7): a REAL kill in the middle of one large write
+/// can leave a truncated, NON-empty block file — a state C03 does not quantify over and the model's `World` cannot
+/// produce.  Here that state is made by hand (the crash point that leaves the block file empty, then the first half of
+/// the bytes the complete block would hold) and the later backup and the restore of its version are run on the real
+/// code AND on the model started from the same abstract state (the torn block is `junk` there).  Both take the torn
+/// block for a stored one.  Only model-vs-implementation agreement is checked: no oracle of C03 applies.
+fn torn_block_probe(report: &mut Report) {
+    let work = tempfile::tempdir().unwrap();
+    let (src, arch) = (work.path().join("src"), work.path().join("arch"));
+    std::fs::create_dir(&src).unwrap();
+    std::fs::write(src.join("small"), b"v0").unwrap();
+    create_archive(&arch);
+    let p = BackupParams { max_entries_per_hunk: 1000, max_block_size: 1 << 20, small_file_cap: 4, owner: true, exclude: vec![] };
+    let b0 = real_backup(&arch, &src, &p, IceptConfig::default());
+    let body: Vec<u8> = (0..200u32).map(|i| (i * 37 % 251) as u8).collect();
+    std::fs::write(src.join("torn-target"), &body).unwrap();
+    if !b0.result.starts_with("result ok") {
+        return;
+    }
+    let scratch = work.path().join("scratch");
+    copy_dir(&arch, &scratch);
+    let full = real_backup(&scratch, &src, &p, IceptConfig::default());
+    let mut torn: Option<(std::path::PathBuf, Vec<u8>)> = None;
+    for k in 0..full.steps {
+        let probe = work.path().join("probe");
+        copy_dir(&arch, &probe);
+        let _ = real_backup(&probe, &src, &p, IceptConfig { crash_at: Some(k), ..Default::default() });
+        let empty = walk_files(&probe.join("d")).into_iter().find(|f| std::fs::metadata(f).map(|m| m.len() == 0).unwrap_or(false));
+        let _ = std::fs::remove_dir_all(&probe);
+        if let Some(f) = empty {
+            let rel = f.strip_prefix(&probe).unwrap().to_path_buf();
+            let whole = std::fs::read(scratch.join(&rel)).unwrap_or_default();
+            if whole.len() >= 8 {
+                let _ = real_backup(&arch, &src, &p, IceptConfig { crash_at: Some(k), ..Default::default() });
+                torn = Some((rel, whole[..whole.len() / 2].to_vec()));
+                break;
+            }
+        }
+    }
+    let _ = std::fs::remove_dir_all(&scratch);
+    let Some((rel, half)) = torn else {
+        report.hit("observation:torn-block:no-such-crash-point");
+        return;
+    };
+    std::fs::write(arch.join(&rel), &half).unwrap();
+    report.case("torn-block-probe", true);
+    report.hit("observation:torn-block-state-built");
+    let case = json!({"observation": "torn block write (outside C03)", "block": rel.to_string_lossy(), "bytes_left": half.len()});
+    let (pre, _) = abstract_archive(&arch);
+    let src_obs = observe(&src);
+    let later = real_backup(&arch, &src, &p, IceptConfig::default());
+    let (post, _) = abstract_archive(&arch);
+    let newest = all_bands(&post).into_iter().max().unwrap_or(0);
+    let (rr, robs) = restore_observe(&arch, work.path(), &Sel::Band(newest), "torn");
+    let mut session = Session::new();
+    session.load_src(&src_lines(&src_obs));
+    session.load_store(&pre);
+    let i_b = session.push(format!("backup {} -", p.model_args()));
+    let i_d = session.push("dump".into());
+    let i_r = session.push(format!("restore {} s:2f 0", band_name(newest)));
+    let answers = session.run();
+    compare_run(report, "torn:backup", &case, &later, &parse_answer(&answers[i_b]), &CmpOpts::default());
+    compare_state(report, "torn:backup", &case, &post, &answers[i_d]);
+    let mut r2 = rr.clone();
+    r2.lines = vec![];
+    let mut m = parse_answer(&answers[i_r]);
+    m.lines = vec![];
+    compare_run(report, "torn:restore", &case, &r2, &m, &CmpOpts::default());
+    let exact = later.result.starts_with("result ok") && rr.events.is_empty() && crate::c01::tree_diff(&src_obs, &robs).is_none();
+    report.hit(if exact { "observation:torn-block-healed" } else { "observation:torn-block-taken-for-stored" });
+}
+
 fn walk_files(root: &std::path::Path) -> Vec<std::path::PathBuf> {
     let mut out = vec![];
     if let Ok(rd) = std::fs::read_dir(root) {
@@ -231,6 +304,7 @@ fn walk_files(root: &std::path::Path) -> Vec<std::path::PathBuf> {
 
 pub fn run(tier: &str, seed: u64, report: &mut Report) {
     big_block_interrupted(seed, report);
+    torn_block_probe(report);
     let thorough = tier == "thorough";
     let n_scen = if thorough { 60 } else { 5 };
     for sidx in 0..n_scen {
